@@ -428,6 +428,10 @@ class AsyncPettingZooVecEnv(PettingZooVecEnv):
         :param terminate: If ``True``, then the :meth:`close` operation is forced and all processes are terminated, defaults to False
         :type terminate: bool, optional
         """
+        # A worker that is no longer running can't answer a pending call or a close command
+        if any(not process.is_alive() for process in self.processes):
+            terminate = True
+
         timeout = 0 if terminate else timeout
 
         try:
@@ -439,19 +443,27 @@ class AsyncPettingZooVecEnv(PettingZooVecEnv):
                 function(timeout)
         except mp.TimeoutError:
             terminate = True
+        except Exception:
+            # The pending call failed (e.g. a worker died); nothing left to wait for
+            terminate = True
+
+        if not terminate:
+            try:
+                for pipe in self.parent_pipes:
+                    if (pipe is not None) and (not pipe.closed):
+                        pipe.send(("close", None))
+
+                for pipe in self.parent_pipes:
+                    if (pipe is not None) and (not pipe.closed):
+                        pipe.recv()
+            except (EOFError, OSError):
+                # A worker is gone; force the remaining ones down
+                terminate = True
 
         if terminate:
             for process in self.processes:
                 if process.is_alive():
                     process.terminate()
-        else:
-            for pipe in self.parent_pipes:
-                if (pipe is not None) and (not pipe.closed):
-                    pipe.send(("close", None))
-
-            for pipe in self.parent_pipes:
-                if (pipe is not None) and (not pipe.closed):
-                    pipe.recv()
 
         for pipe in self.parent_pipes:
             if pipe is not None:
